@@ -72,18 +72,20 @@ macro_rules! vec_spellings {
         where
             $V<D>: MaybeNeg,
         {
-            let nv = 3;
+            // operands: 3 generic ones and the zero vector; scalars: 3 generic ones and zero (no division of integers by it)
+            let (nv, ns) = (4, 4);
             rep.cases(
                 &format!("spellings/{}+{}", stringify!($V), stringify!($Pt)),
                 D::NAME,
-                "all ordered pairs of 3 generic operands x 3 scalars; every by-value / by-reference / compound-assignment form of every operator",
-                nv * nv * 3,
+                "all ordered pairs of 4 operands (3 generic, zero) x 4 scalars (3 generic, zero); every by-value / by-reference / compound-assignment form of every operator",
+                nv * nv * ns,
                 Guard::states(9).distinct(9),
                 |i, ctx| {
-                    let (ai, bi, si) = (i / (nv * 3), (i / 3) % nv, i % 3);
-                    let a: [D; $n] = vec_from_r(&gen_d::<D>($n, ai));
-                    let b: [D; $n] = vec_from_r(&gen_d::<D>($n, bi + 1));
-                    let s: D = rq(if D::INTEGER { [(2, 1), (3, 1), (5, 1)][si] } else { [(2, 1), (-3, 1), (1, 2)][si] });
+                    let (ai, bi, si) = (i / (nv * ns), (i / ns) % nv, i % ns);
+                    let a: [D; $n] = if ai == 3 { [rq::<D>((0, 1)); $n] } else { vec_from_r(&gen_d::<D>($n, ai)) };
+                    let b: [D; $n] = if bi == 3 { [rq::<D>((0, 1)); $n] } else { vec_from_r(&gen_d::<D>($n, bi + 1)) };
+                    let s: D = rq(if D::INTEGER { [(2, 1), (3, 1), (5, 1), (0, 1)][si] } else { [(2, 1), (-3, 1), (1, 2), (0, 1)][si] });
+                    let divisible = !((D::INTEGER || D::EXACT) && si == 3);
                     ctx.describe(|| format!("{}<{}> a={:?} b={:?} s={:?}", stringify!($V), D::NAME, a, b, s));
                     let (va, vb) = ($mkv(a), $mkv(b));
                     // unsigned subtraction must not underflow: order the operands
@@ -96,13 +98,17 @@ macro_rules! vec_spellings {
                     assign!(ctx, &format!("{vn}/sub"), hi, lo, -=, c);
                     let c = two!(ctx, &format!("{vn}/mul_scalar"), va, s, *);
                     assign!(ctx, &format!("{vn}/mul_scalar"), va, s, *=, c);
-                    let c = two!(ctx, &format!("{vn}/div_scalar"), va, s, /);
-                    assign!(ctx, &format!("{vn}/div_scalar"), va, s, /=, c);
-                    let c = two!(ctx, &format!("{vn}/rem_scalar"), va, s, %);
-                    assign!(ctx, &format!("{vn}/rem_scalar"), va, s, %=, c);
+                    if divisible {
+                        let c = two!(ctx, &format!("{vn}/div_scalar"), va, s, /);
+                        assign!(ctx, &format!("{vn}/div_scalar"), va, s, /=, c);
+                        let c = two!(ctx, &format!("{vn}/rem_scalar"), va, s, %);
+                        assign!(ctx, &format!("{vn}/rem_scalar"), va, s, %=, c);
+                    }
                     if let Some(n) = va.try_neg() {
-                        // Neg exists by value only for vectors; it must agree with 0 - a
-                        same(ctx, &format!("{vn}/neg"), "-a vs zero-a", &n, &($V::<D>::zero() - va));
+                        // Neg exists by value only for vectors; it must agree with 0 - a (where no component is zero: -0.0 is not 0 - 0)
+                        if ai != 3 {
+                            same(ctx, &format!("{vn}/neg"), "-a vs zero-a", &n, &($V::<D>::zero() - va));
+                        }
                     }
                     // points
                     let (pa, pb) = ($mkp(a), $mkp(b));
@@ -115,10 +121,12 @@ macro_rules! vec_spellings {
                     let _ = four!(ctx, &format!("{pn}/sub_point"), phi, plo, -);
                     let c = two!(ctx, &format!("{pn}/mul_scalar"), pa, s, *);
                     assign!(ctx, &format!("{pn}/mul_scalar"), pa, s, *=, c);
-                    let c = two!(ctx, &format!("{pn}/div_scalar"), pa, s, /);
-                    assign!(ctx, &format!("{pn}/div_scalar"), pa, s, /=, c);
-                    let c = two!(ctx, &format!("{pn}/rem_scalar"), pa, s, %);
-                    assign!(ctx, &format!("{pn}/rem_scalar"), pa, s, %=, c);
+                    if divisible {
+                        let c = two!(ctx, &format!("{pn}/div_scalar"), pa, s, /);
+                        assign!(ctx, &format!("{pn}/div_scalar"), pa, s, /=, c);
+                        let c = two!(ctx, &format!("{pn}/rem_scalar"), pa, s, %);
+                        assign!(ctx, &format!("{pn}/rem_scalar"), pa, s, %=, c);
+                    }
                 },
             );
         }
@@ -131,11 +139,12 @@ fn sp_v4<D: Dom>(rep: &mut Report)
 where
     Vector4<D>: MaybeNeg,
 {
-    rep.cases("spellings/Vector4", D::NAME, "all ordered pairs of 3 generic operands x 3 scalars", 27, Guard::states(9).distinct(9), |i, ctx| {
-        let (ai, bi, si) = (i / 9, (i / 3) % 3, i % 3);
-        let a: [D; 4] = vec_from_r(&gen_d::<D>(4, ai));
-        let b: [D; 4] = vec_from_r(&gen_d::<D>(4, bi + 1));
-        let s: D = rq(if D::INTEGER { [(2, 1), (3, 1), (5, 1)][si] } else { [(2, 1), (-3, 1), (1, 2)][si] });
+    rep.cases("spellings/Vector4", D::NAME, "all ordered pairs of 4 operands (3 generic, zero) x 4 scalars (3 generic, zero)", 64, Guard::states(9).distinct(9), |i, ctx| {
+        let (ai, bi, si) = (i / 16, (i / 4) % 4, i % 4);
+        let a: [D; 4] = if ai == 3 { [rq::<D>((0, 1)); 4] } else { vec_from_r(&gen_d::<D>(4, ai)) };
+        let b: [D; 4] = if bi == 3 { [rq::<D>((0, 1)); 4] } else { vec_from_r(&gen_d::<D>(4, bi + 1)) };
+        let s: D = rq(if D::INTEGER { [(2, 1), (3, 1), (5, 1), (0, 1)][si] } else { [(2, 1), (-3, 1), (1, 2), (0, 1)][si] });
+        let divisible = !((D::INTEGER || D::EXACT) && si == 3);
         ctx.describe(|| format!("Vector4<{}> a={:?} b={:?} s={:?}", D::NAME, a, b, s));
         let (va, vb) = (mk_v4(a), mk_v4(b));
         let ge = (0..4).all(|j| a[j] >= b[j]);
@@ -146,12 +155,16 @@ where
         assign!(ctx, "Vector4/sub", hi, lo, -=, c);
         let c = two!(ctx, "Vector4/mul_scalar", va, s, *);
         assign!(ctx, "Vector4/mul_scalar", va, s, *=, c);
-        let c = two!(ctx, "Vector4/div_scalar", va, s, /);
-        assign!(ctx, "Vector4/div_scalar", va, s, /=, c);
-        let c = two!(ctx, "Vector4/rem_scalar", va, s, %);
-        assign!(ctx, "Vector4/rem_scalar", va, s, %=, c);
+        if divisible {
+            let c = two!(ctx, "Vector4/div_scalar", va, s, /);
+            assign!(ctx, "Vector4/div_scalar", va, s, /=, c);
+            let c = two!(ctx, "Vector4/rem_scalar", va, s, %);
+            assign!(ctx, "Vector4/rem_scalar", va, s, %=, c);
+        }
         if let Some(n) = va.try_neg() {
-            same(ctx, "Vector4/neg", "-a vs zero-a", &n, &(Vector4::<D>::zero() - va));
+            if ai != 3 {
+                same(ctx, "Vector4/neg", "-a vs zero-a", &n, &(Vector4::<D>::zero() - va));
+            }
         }
     });
 }
@@ -178,11 +191,13 @@ fn float_spellings<T: Tier>(rep: &mut Report) {
         "spellings/Matrix2..4+Quaternion+Rad+Deg+Basis2+Basis3",
         T::NAME,
         &format!("all ordered pairs of {nc} operand classes (3 generic{}) x 3 scalars; every form of every operator", if T::EXACT { "" } else { ", zero, -0.0, generic * 2^-60" }),
-        nc * nc * 3,
+        nc * nc * if T::EXACT { 3 } else { 4 },
         Guard::states(9).distinct(9),
         |i, ctx| {
-            let (ai, bi, si) = (i / (3 * nc), (i / 3) % nc, i % 3);
-            let s: T = rq([(2, 1), (-3, 1), (1, 2)][si]);
+            // (float tiers: also the scalar 0 - division by it gives inf / NaN in every form alike)
+            let ns = if T::EXACT { 3 } else { 4 };
+            let (ai, bi, si) = (i / (ns * nc), (i / ns) % nc, i % ns);
+            let s: T = rq([(2, 1), (-3, 1), (1, 2), (0, 1)][si]);
             // class of the first operand; of the second (shifted by one base so that a != b); of a vector operand
             let (ca, cb) = (classes[ai], if classes[bi] < 10 { classes[bi] + 1 } else { classes[bi] });
             let cv = if cb < 10 { cb + 1 } else { cb };
@@ -323,11 +338,12 @@ macro_rules! left_scalar {
                                 };
                                 let want: Vec<$t> = comps.iter().map(|x| f(s, *x)).collect();
                                 ctx.t();
-                                if byval != want {
+                                // (compared through the Debug rendering, like every other form: -0.0 is not 0.0)
+                                if format!("{:?}", byval) != format!("{:?}", want) {
                                     ctx.fail(&key(&format!("left-scalar/{}/{op}", $name)), || format!("{:?} {op} {:?} = {:?}, the primitive applied per component with the scalar on the left gives {:?}", s, comps, byval, want));
                                 }
                                 ctx.t();
-                                if byref != byval {
+                                if format!("{:?}", byref) != format!("{:?}", byval) {
                                     ctx.fail(&key(&format!("left-scalar/{}/{op}/by-ref", $name)), || format!("s {op} &v = {:?}, s {op} v = {:?}", byref, byval));
                                 }
                                 ctx.out(&format!("{:?}", byval));
@@ -461,12 +477,12 @@ fn folds_zero<T: Tier + num_traits::Float>(rep: &mut Report) {
 /// mode 0: signed zeros; mode 1: letters {2^(p+1), 1, -2^(p+1)} (p the precision): the left fold rounds 2^(p+1) + 1 back to
 /// 2^(p+1), so a compensated or re-associated sum gives another answer than the left fold the statement names
 fn folds_special<T: Tier + num_traits::Float>(rep: &mut Report, mode: usize) {
-    let ls = lists(3);
+    let ls = lists(if mode == 0 { 3 } else { 5 });
     let big: T = num_traits::cast::<f64, T>(if T::NAME == "F" { 33554432.0 } else { 18014398509481984.0 }).unwrap();
     rep.cases(
         if mode == 0 { "folds/signed-zero" } else { "folds/rounding" },
         T::NAME,
-        if mode == 0 { "every list of length 0..3 over {all components -0.0, components alternating -0.0/+0.0, all +0.0}; Sum / Product over values and references vs the left fold from zero() / one(), compared bit for bit" } else { "every list of length 0..3 over {2^(p+1), 1, -2^(p+1)} (all components): Sum over values and references vs the left fold from zero(), compared bit for bit" },
+        if mode == 0 { "every list of length 0..3 over {all components -0.0, components alternating -0.0/+0.0, all +0.0}; Sum / Product over values and references vs the left fold from zero() / one(), compared bit for bit" } else { "every list of length 0..5 over {2^(p+1), 1, -2^(p+1)} (all components): Sum over values and references - slice iterators and iterators without a known length - vs the left fold from zero(), compared bit for bit" },
         ls.len(),
         Guard::states(40).distinct(3),
         |i, ctx| {
@@ -489,6 +505,10 @@ fn folds_special<T: Tier + num_traits::Float>(rep: &mut Report, mode: usize) {
                     let fold = items.iter().fold(<$Ty>::zero(), |a, b| a + *b);
                     same(ctx, &format!("{}/sum", $name), "values", &items.iter().copied().sum::<$Ty>(), &fold);
                     same(ctx, &format!("{}/sum", $name), "references", &items.iter().sum::<$Ty>(), &fold);
+                    // iterators that do not know their length, and an owning one
+                    same(ctx, &format!("{}/sum", $name), "values (filtered iterator)", &items.iter().copied().filter(|_| true).sum::<$Ty>(), &fold);
+                    same(ctx, &format!("{}/sum", $name), "references (filtered iterator)", &items.iter().filter(|_| true).sum::<$Ty>(), &fold);
+                    same(ctx, &format!("{}/sum", $name), "values (into_iter)", &items.clone().into_iter().sum::<$Ty>(), &fold);
                 }};
             }
             macro_rules! product {
